@@ -85,6 +85,20 @@ fn variants(base: &[FileSpec]) -> Vec<(&'static str, Vec<FileSpec>, bool)> {
     let mut x = base.to_vec();
     x.push(FileSpec { name: "extra.parquet".into(), ids: vec![1000], rg: 10, wide: false });
     v.push(("an extra file", x, true));
+    // copies that exist under the right names but hold nothing (a copy that died before its first flush)
+    let mut x = base.to_vec();
+    for f in x.iter_mut() {
+        f.ids.clear();
+    }
+    v.push(("every file present but without a row group", x, true));
+    let mut x = base.to_vec();
+    x[0].ids.clear();
+    v.push(("the first file without a row group", x, base.len() > 1 || !base[0].ids.is_empty()));
+    if base.len() > 1 {
+        let mut x = base.to_vec();
+        x.pop();
+        v.push(("the last file missing", x, true));
+    }
     v
 }
 
